@@ -367,7 +367,7 @@ func (c *Ctx) toggleCasesRule(rule string) {
 // imports) is only consulted with a path that the setup file itself imports.
 func (c *Ctx) pkgImportsIndexRule(rule string) {
 	r := c.R
-	r.Rule(rule, "packages.Package.Imports is indexed only with the path returned by the setup file's own import table (LookupPath, taken on its ok edge): the imports of whatever file sits at the output path must not decide what a notation resolves to")
+	r.Rule(rule, "packages.Package.Imports is indexed only with the path returned by the setup file's own import table (LookupPath, taken on its ok edge) or with the path text of one of the setup file's own import specs: the imports of whatever file sits at the output path must not decide what a notation resolves to")
 	n := 0
 	for _, fn := range c.P.Funcs() {
 		for _, b := range fn.Blocks {
@@ -385,6 +385,11 @@ func (c *Ctx) pkgImportsIndexRule(rule string) {
 				for _, cs := range c.Reach(fn).Cases(lk.Index) {
 					t := c.O.Of(cs.V)
 					isLP := t.Kind == "extract" && t.Name == "0" && t.Args[0].IsCallTo("("+pUtil+"ImportNames).LookupPath")
+					// or the path text of one of the setup file's own import specs (the same expression NewImportNames keys its table with)
+					if t.IsCallTo("strings.ReplaceAll") && t.Args[0].IsField("ast.BasicLit.Value") && t.Args[0].Args[0].IsField("ast.ImportSpec.Path") &&
+						t.Args[0].Args[0].Args[0].Contains(func(x *core.Term) bool { return x.IsField("ast.File.Imports") }) {
+						continue
+					}
 					if !isLP {
 						okAll = false
 						continue
@@ -535,11 +540,14 @@ func (c *Ctx) stdoutInventoryRule(rule string) {
 	n := 0
 	for _, s := range c.Calls(func(n string) bool {
 		switch n {
-		case "fmt.Print", "fmt.Printf", "fmt.Println", "fmt.Fprint", "fmt.Fprintf", "fmt.Fprintln", "flag.PrintDefaults":
+		case "fmt.Print", "fmt.Printf", "fmt.Println", "fmt.Fprint", "fmt.Fprintf", "fmt.Fprintln", "flag.PrintDefaults", "(*os.File).Write", "(*os.File).WriteString":
 			return true
 		}
 		return false
 	}) {
+		if strings.HasPrefix(s.Callee, "(*os.File)") && !c.O.Of(s.Args()[0]).Is("global", "os.Stdout") {
+			continue
+		}
 		root := s.Fn
 		for root.Parent() != nil {
 			root = root.Parent()
